@@ -12,6 +12,10 @@ pub struct FnDecl {
     pub reads: u16,
     /// bit k set = declares exclusive access to data type k
     pub writes: u16,
+    /// how the lists are returned by `DataAccessDyn` (all legal): bit 0 = heap-backed
+    /// small-vector even when short, bit 1 = reverse order, bit 2 = first entry twice,
+    /// bit 3 = every written type is also listed as read
+    pub style: u8,
 }
 
 #[derive(Clone, Copy, Debug, PartialEq, Eq)]
@@ -276,6 +280,16 @@ pub struct RunSpec {
     pub may_forget: bool,
     /// run inside tokio's cooperative budget
     pub coop: bool,
+    /// histories: the consumer walks away from the stream still holding whatever
+    /// FnRefs it has at that moment; up to `carried_slots` of the next run are filled
+    /// with them
+    pub leave_refs: bool,
+    /// histories: number of slots for FnRefs of the *previous* run's stream that are
+    /// dropped during this run (dummies when the previous run left none)
+    pub carried_slots: u8,
+    /// coop mode: units of the task budget (of 128) the caller has already used up
+    /// when it polls the call, on every third poll
+    pub coop_burn: u8,
     /// stream consumer: FnRef `id` is dropped by the unwinding of a (caught) panic in
     /// user code iff bit `id % 8` is set
     pub unwind_drop_mask: u8,
@@ -322,6 +336,8 @@ pub enum Action {
     Abort,
     /// create the run's future / stream (concurrent mode)
     Start,
+    /// drop an FnRef that the previous run's (dropped) stream had yielded
+    DropCarried(usize),
 }
 
 #[derive(Clone, Debug, PartialEq, Eq)]
@@ -346,6 +362,7 @@ fn action_to_json(a: &Action) -> Value {
         Action::DropStream => json!("drop_stream"),
         Action::Abort => json!("abort"),
         Action::Start => json!("start"),
+        Action::DropCarried(i) => json!({"drop_carried": i}),
     }
 }
 
@@ -368,6 +385,7 @@ fn action_from_json(v: &Value) -> Option<Action> {
         "release" => Action::Release(i),
         "drop_ref" => Action::DropRef(i),
         "forget_ref" => Action::ForgetRef(i),
+        "drop_carried" => Action::DropCarried(i),
         _ => return None,
     })
 }
@@ -436,7 +454,7 @@ impl GraphSpec {
         json!({
             "family": self.family,
             "fns": self.fns.iter().enumerate().map(|(i, f)| json!({
-                "id": i, "reads": types_to_json(f.reads), "writes": types_to_json(f.writes)
+                "id": i, "reads": types_to_json(f.reads), "writes": types_to_json(f.writes), "list_style": f.style
             })).collect::<Vec<_>>(),
             "builder_calls": self.calls.iter().map(|c| json!({
                 "call": match c.kind { EdgeKind::Logic => "add_logic_edge", EdgeKind::Contains => "add_contains_edge" },
@@ -452,6 +470,7 @@ impl GraphSpec {
             g.fns.push(FnDecl {
                 reads: types_from_json(f.get("reads")?)?,
                 writes: types_from_json(f.get("writes")?)?,
+                style: f.get("list_style").and_then(|x| x.as_u64()).unwrap_or(0) as u8,
             });
         }
         for c in v.get("builder_calls")?.as_array()? {
@@ -534,6 +553,9 @@ impl RunSpec {
             "may_abort": self.may_abort,
             "may_forget": self.may_forget,
             "coop": self.coop,
+            "leave_refs": self.leave_refs,
+            "carried_slots": self.carried_slots,
+            "coop_burn": self.coop_burn,
             "unwind_drop_mask": self.unwind_drop_mask,
         })
     }
@@ -558,6 +580,9 @@ impl RunSpec {
             may_abort: v.get("may_abort")?.as_bool()?,
             may_forget: v.get("may_forget")?.as_bool()?,
             coop: v.get("coop").and_then(|c| c.as_bool()).unwrap_or(false),
+            leave_refs: v.get("leave_refs").and_then(|c| c.as_bool()).unwrap_or(false),
+            carried_slots: v.get("carried_slots").and_then(|c| c.as_u64()).unwrap_or(0) as u8,
+            coop_burn: v.get("coop_burn").and_then(|c| c.as_u64()).unwrap_or(0) as u8,
             unwind_drop_mask: v.get("unwind_drop_mask").and_then(|c| c.as_u64()).unwrap_or(0) as u8,
         })
     }
